@@ -25,6 +25,13 @@ Ops (JSON lists), names are small integers (0 = the logged-in user, 1..4 remote 
   ["minspeed", v] ["ratio", v] ["stats", n, speed] ["reset"]    server messages
   ["burst", [op, op...]] the listed ops are issued back to back WITHOUT running the loop in between
                          (monitor only: the model is atomic per op)
+  ["gate", target, trigger, [op, ...]]
+                         SUSPENDED SEND (monitor only). `drain()` of the library-side socket of `target` blocks
+                         (FakeWriter.drain_gate): target = "new" (the connection created by trigger, an "in" op),
+                         a connection id, or "server". Then `trigger` is issued and the loop run to quiescence
+                         (the handler now hangs in its `await send_message(...)` to the target), each listed op
+                         is issued and the loop run to quiescence with the send still suspended, finally the
+                         gate is released and the loop run to quiescence. One snapshot at the end.
 Connection ids are creation order (0, 1, ...), identical on both sides.
 """
 from __future__ import annotations
@@ -286,6 +293,9 @@ async def _scenario(loop, case: dict):
             if k == 'in':
                 n = op[1]
                 rd, wr = await fn.connect_in(LISTEN_PORT, remote_addr=(peer_addr(n)[0], 40000 + len(w.remotes)))
+                if state.get('gate_next_in') is not None:
+                    state['gate_next_in'](wr.peer)       # wr.peer = the library-side writer of this pair
+                    state['gate_next_in'] = None
                 r = _Remote(len(w.remotes), n, False)
                 r.reader, r.writer = rd, wr
                 w.remotes.append(r)
@@ -313,6 +323,34 @@ async def _scenario(loop, case: dict):
                 for sub in op[1]:
                     sts.append(await issue(sub))
                 status = 'burst:' + ','.join(sts)
+            elif op[0] == 'gate':
+                _, target, trigger, during = op
+                gates = []
+
+                def gate_writer(wr):
+                    ev = asyncio.Event()
+                    wr.drain_gate = ev
+                    gates.append((wr, ev))
+                try:
+                    if target == 'server':
+                        if server_up():
+                            gate_writer(server.sessions[-1][1].peer)
+                    elif target == 'new':
+                        state['gate_next_in'] = gate_writer
+                    elif isinstance(target, int) and 0 <= target < len(w.remotes) and remote_open(w.remotes[target]):
+                        gate_writer(w.remotes[target].writer.peer)
+                    sts = [await issue(trigger)]
+                    state['gate_next_in'] = None
+                    await settle()
+                    for sub in during:
+                        sts.append(await issue(sub))
+                        await settle()
+                finally:
+                    state['gate_next_in'] = None
+                    for wr, ev in gates:
+                        ev.set()
+                        wr.drain_gate = None
+                status = 'gate:' + ','.join(sts) + ('' if gates else ':ungated')
             else:
                 status = await issue(op)
             await settle()
@@ -345,7 +383,7 @@ def _canon_line(s: dict) -> str:
     peers = sorted(s['peers'], key=lambda p: (str(type(p['c'])), p['c']))
     ps = ' '.join(f"{p['c']}:{p['name']}:{_fmt_opt(p['level'])}:{_fmt_opt(p['root'])}:"
                   f"{_fmt_opt(p['toldL'])}:{_fmt_opt(p['toldR'])}:{p['nL']}:{p['nR']}" for p in peers)
-    st = s['status'].split(':')[0] if s['status'].startswith('burst') else s['status']
+    st = s['status'].split(':')[0] if s['status'].startswith(('burst', 'gate')) else s['status']
     b = lambda v: '-' if v is None else ('1' if v else '0')
     return (f"{st} S={b(s['dn_session'])} P={_fmt_opt(s['parent'])} C=[{','.join(map(str, s['children']))}] "
             f"D=[{ps}] pot=[{','.join(map(str, s['potential']))}] A={b(s['accept'])} M={s['max']} "
@@ -370,7 +408,11 @@ def _cache_size() -> int:
 
 
 def _flat_ops(op):
-    return list(op[1]) if op[0] == 'burst' else [op]
+    if op[0] == 'burst':
+        return list(op[1])
+    if op[0] == 'gate':
+        return [op[2]] + list(op[3])
+    return [op]
 
 
 def _monitor(case: dict, trace: list) -> list[Violation]:
@@ -384,7 +426,8 @@ def _monitor(case: dict, trace: list) -> list[Violation]:
     for k, (op, s) in enumerate(zip(case['ops'], trace)):
         b = s['before']
         subs = _flat_ops(op)
-        statuses = s['status'].split(':', 1)[1].split(',') if s['status'].startswith('burst') else [s['status']]
+        statuses = (s['status'].split(':')[1].split(',') if s['status'].startswith(('burst', 'gate'))
+                    else [s['status']])
         proposed_before = list(proposed[-cache:])
         for sub, st in zip(subs, statuses):
             if sub[0] == 'pp' and st == 'ok':
@@ -415,7 +458,7 @@ def _monitor(case: dict, trace: list) -> list[Violation]:
         if new:
             if 'in' not in kinds:
                 add('C13-child-admission', f'child {new} appeared without an incoming connection', k)
-            elif len(subs) == 1 or kinds <= {'in', 'level', 'root'}:
+            elif len(subs) == 1:
                 if not b['accept']:
                     add('C13-child-admission', f'child {new} accepted while child acceptance is off', k,
                         observed={'accept': b['accept'], 'max': b['max'], 'children_before': b['children']})
@@ -423,8 +466,19 @@ def _monitor(case: dict, trace: list) -> list[Violation]:
                     add('C13-child-admission', f'child {new} accepted with {len(b["children"])} children and '
                         f'maximum {b["max"]}', k,
                         observed={'accept': b['accept'], 'max': b['max'], 'children_before': b['children']})
+            elif not (kinds & {'stats', 'minspeed', 'ratio', 'session', 'lost'}):
+                # composite op, limits constant throughout: every admission needs accept on and leaves
+                # |children| <= max; after the last admission children only leave -> bound holds at the end
+                if not b['accept']:
+                    add('C13-child-admission', f'child {new} accepted while child acceptance is off', k,
+                        observed={'accept': b['accept'], 'max': b['max'], 'children_before': b['children']})
+                if len(s['children']) > b['max']:
+                    add('C13-child-admission', f'child {new} accepted: {len(s["children"])} children with '
+                        f'maximum {b["max"]}', k,
+                        observed={'accept': b['accept'], 'max': b['max'], 'children_before': b['children'],
+                                  'children_after': s['children']})
             for c, n in new:
-                if n in proposed_before:
+                if n in proposed_before and (len(subs) == 1 or 'pp' not in kinds):
                     add('C13-candidate-taken-as-child', f'peer {n} was proposed by the server as potential parent '
                         f'and is taken as child (connection {c})', k, observed={'proposed': proposed_before})
         # --- truthfulness (only while logged in: "own name" is the session's user)
@@ -475,7 +529,7 @@ def _gen_case(rng: random.Random, kind: Optional[str] = None) -> dict:
     peers = list(range(1, npeers + 1))
     roots = peers + [5, 6, 6, 5, ME] if rng.random() < 0.25 else peers + [5, 6, 6, 5]
     kind = kind or rng.choice(['random', 'random', 'parent', 'parent', 'child', 'child', 'session', 'limits',
-                               'overflow', 'burst'])
+                               'overflow', 'burst', 'gate', 'gate', 'gate'])
     ops: list = []
     nconn = 0
     up = False
@@ -596,6 +650,102 @@ def _gen_case(rng: random.Random, kind: Optional[str] = None) -> dict:
                 o = ['in', rng.choice(peers)]
             sub.append(o)
         do(['burst', sub])
+    elif kind == 'gate':
+        # a send is suspended while further events are handled (monitor only)
+        variant = rng.choice(['stale', 'stale', 'slot', 'slot', 'close', 'server-set', 'server-unset', 'child',
+                              'mixed'])
+        others = [r for r in roots if r != ME]
+
+        def make_parent():
+            a = rng.choice(peers)
+            pc = nconn
+            do(['pp', [a]])
+            lv = rng.choice([0, 1, 2])
+            rt = rng.choice([r for r in others if r != a])
+            for o in rng.choice([[['level', pc, lv], ['root', pc, rt]], [['root', pc, rt], ['level', pc, lv]]]):
+                do(o)
+            return pc, a
+
+        def parent_events(pc):
+            return [['root', pc, rng.choice(others)], ['level', pc, rng.choice([0, 1, 3, 7])], ['close', pc],
+                    ['reset'], ['root', pc, rng.choice(others)]]
+
+        if variant == 'stale':
+            if rng.random() < 0.3:
+                do(['in', rng.choice(peers)])
+            pc, a = make_parent()
+            newc = nconn
+            during = [rng.choice(parent_events(pc))]
+            if rng.random() < 0.4:
+                during.append(rng.choice(parent_events(pc) + [['lost'], ['in', rng.choice(peers)],
+                                                              ['close', newc]]))
+            do(['gate', 'new', ['in', rng.choice([q for q in peers if q != a])], during])
+        elif variant == 'slot':
+            k = rng.choice([0, 0, 1, 2])
+            if rng.random() < 0.3:
+                make_parent()
+            do(['stats', ME, 5120 * (k + 1)])          # default ratio 50 -> maximum k + 1
+            for _ in range(k):
+                do(['in', rng.choice(peers)])
+            during = [['in', rng.choice(peers)]]
+            if rng.random() < 0.3:
+                during.append(['in', rng.choice(peers)])
+            do(['gate', 'new', ['in', rng.choice(peers)], during])
+        elif variant == 'close':
+            if rng.random() < 0.5:
+                make_parent()
+            newc = nconn
+            during = [['close', newc]]
+            if rng.random() < 0.4:
+                during.insert(rng.choice([0, 1]), rng.choice([['in', rng.choice(peers)], ['reset'],
+                                                              ['level', max(0, newc - 1), 1]]))
+            do(['gate', 'new', ['in', rng.choice(peers)], during])
+        elif variant == 'server-set':
+            if rng.random() < 0.5:
+                do(['in', rng.choice(peers)])
+            a = rng.choice(peers)
+            pc = nconn
+            do(['pp', [a]])
+            rt = rng.choice([r for r in others if r != a])
+            do(['root', pc, rt])
+            during = [rng.choice(parent_events(pc) + [['in', rng.choice(peers)]])]
+            if rng.random() < 0.4:
+                during.append(rng.choice(parent_events(pc) + [['in', rng.choice(peers)]]))
+            do(['gate', 'server', ['level', pc, rng.choice([1, 2])], during])   # _set_parent hangs in the notify
+        elif variant == 'server-unset':
+            if rng.random() < 0.5:
+                do(['in', rng.choice(peers)])
+            pc, a = make_parent()
+            b = rng.choice([q for q in peers if q != a])
+            bc = nconn
+            do(['pp', [b]])
+            do(['root', bc, rng.choice([r for r in others if r != b])])       # incomplete candidate
+            during = [['level', bc, rng.choice([1, 2, 3])]]
+            if rng.random() < 0.4:
+                during.append(rng.choice([['in', rng.choice(peers)], ['level', bc, 5], ['close', bc]]))
+            do(['gate', 'server', ['close', pc], during])                     # _unset_parent hangs in the notify
+        elif variant == 'child':
+            cc = nconn
+            do(['in', rng.choice(peers)])
+            pc, a = make_parent()
+            ev = parent_events(pc)
+            during = [rng.choice(ev + [['in', rng.choice(peers)], ['close', cc]])]
+            if rng.random() < 0.4:
+                during.append(rng.choice(ev + [['lost']]))
+            do(['gate', cc, rng.choice(ev[:2]), during])
+        else:
+            if rng.random() < 0.6:
+                make_parent()
+            during = []
+            for _ in range(rng.choice([1, 2])):
+                o = rand_op()
+                if o[0] == 'session':
+                    o = ['in', rng.choice(peers)]
+                during.append(o)
+            tgt = rng.choice(['new', 'new', 'server'])
+            do(['gate', tgt, ['in', rng.choice(peers)], during])
+        if not up:
+            do(['session'])
     limit = 10 if kind != 'overflow' else 12
     while len(ops) < limit and (len(ops) < 4 or rng.random() < 0.8):
         do(rand_op())
@@ -617,7 +767,8 @@ def _model_lines(case: dict) -> list[str]:
 
 
 def _has_burst(case) -> bool:
-    return any(op[0] == 'burst' for op in case['ops'])
+    """monitor-only cases (burst / gate): the model is atomic per op"""
+    return any(op[0] in ('burst', 'gate') for op in case['ops'])
 
 
 def _eval_case(case):
@@ -650,13 +801,16 @@ class C13(Property):
             '{session, lost, pp(names), in(name), level(conn,v), root(conn,name), close(conn), minspeed, ratio, '
             'stats, reset, burst}, generated state-directed from VERIF_SEED (families: parent flow with both '
             'announcement orders and re-announcement, child flow incl. a child announcing a position, session '
-            'loss, admission limits, cache overflow, bursts); a case is non-trivial when at some quiescent point '
+            'loss, admission limits, cache overflow, bursts, suspended sends ["gate": drain() of a chosen socket '
+            'blocks while 1-2 further events are handled; monitor only]); a case is non-trivial when at some quiescent point '
             'the client had a parent or a child; distinct = distinct canonical op list')
     assumptions = [
         'settings.debug.search_for_parent is True (default); peer.connect_mode default (race); every proposed '
         'potential parent is reachable (direct connection succeeds)',
         'ops are separated by quiescence of the event loop (handlers are atomic in the model); back-to-back '
-        'delivery (burst) is exercised on the implementation with the monitor only',
+        'delivery (burst) and suspended sends (gate: the send to the new child / an existing child / the server '
+        'blocks in drain() while further events are handled) are exercised on the implementation with the '
+        'monitor only',
         'max_children = floor(speed*10/(ratio*1024)) over exact integers; generated (speed, ratio) pairs are '
         'restricted to a grid on which the float expression of the code agrees (asserted at import)',
         'branch levels < 2^32-1 (level+1 must be serialisable as uint32)',
